@@ -38,7 +38,13 @@ func replayEffect(ctx *Context, r *OblResult, outDir string) (bool, string) {
 func parseRules(path string, overlay []byte) ([]*EffectRule, error) { return nil, nil }
 func (c *Context) runRule(r *EffectRule) []*FuncResult                { return nil }
 
+// canonType prints a type with aliases resolved and packages by full path, so that types of two separate loads compare.
+func canonType(t types.Type) string {
+	return types.TypeString(types.Unalias(t), func(p *types.Package) string { return p.Path() })
+}
+
 type capture struct {
+	canon string // canonical (alias-free, full package path) type of a typed capture
 	name  string // without the cap_ prefix
 	typ   string // Go type as source text ("" = from the signature)
 	pos   int    // argument position; for results: result index
@@ -57,6 +63,9 @@ type callPattern struct {
 	recvFunc string // lowered function returning the receiver value
 	iface    *types.Interface
 	dynamic  bool // call of a function value (field or variable of func type)
+	recvCap     string // capture name of the receiver (T($r).M(...))
+	recvCapType string
+	recvCapSuffix string
 }
 
 type EffectClause struct {
@@ -66,6 +75,8 @@ type EffectClause struct {
 	NeedsDir string // "" | before | after
 	Forbid   bool   // the Needs pattern must NOT occur
 	Needs    *callPattern
+	MoreNeeds []*callPattern // further `needs` patterns (conjunction)
+	MoreDirs  []string
 	Where    string
 	whereFn  string
 	If       string // filter on the `every` event: only events for which it holds are obliged
@@ -161,18 +172,27 @@ func parseEffect(ec *EffectClause, text string) error {
 		}
 		ec.Needs = p
 	} else if i := strings.Index(text, " needs "); i >= 0 {
-		n := strings.TrimSpace(text[i+7:])
+		// several `needs` may follow each other: all the named events must exist (one `where` speaks about all captures)
+		parts := strings.Split(text[i+7:], " needs ")
 		text = strings.TrimSpace(text[:i])
-		dir, pat, ok := strings.Cut(n, " ")
-		if !ok || (dir != "before" && dir != "after") {
-			return fmt.Errorf("needs must be followed by before|after and a pattern")
+		for k, n := range parts {
+			n = strings.TrimSpace(n)
+			dir, pat, ok := strings.Cut(n, " ")
+			if !ok || (dir != "before" && dir != "after") {
+				return fmt.Errorf("needs must be followed by before|after and a pattern")
+			}
+			p, err := parsePattern(pat)
+			if err != nil {
+				return err
+			}
+			if k == 0 {
+				ec.NeedsDir = dir
+				ec.Needs = p
+			} else {
+				ec.MoreNeeds = append(ec.MoreNeeds, p)
+				ec.MoreDirs = append(ec.MoreDirs, dir)
+			}
 		}
-		ec.NeedsDir = dir
-		p, err := parsePattern(pat)
-		if err != nil {
-			return err
-		}
-		ec.Needs = p
 	}
 	p, err := parsePattern(text)
 	if err != nil {
@@ -198,6 +218,14 @@ func parsePattern(s string) (*callPattern, error) {
 	switch f := call.Fun.(type) {
 	case *ast.SelectorExpr:
 		p.recvSrc = types.ExprString(f.X)
+		// T($r).M(...): any receiver of interface type T, captured as $r
+		if conv, ok := f.X.(*ast.CallExpr); ok && len(conv.Args) == 1 {
+			if id, ok := conv.Args[0].(*ast.Ident); ok && strings.HasPrefix(id.Name, "cap_") {
+				p.recvSrc = "_"
+				p.recvCap = strings.TrimPrefix(id.Name, "cap_")
+				p.recvCapType = types.ExprString(conv.Fun)
+			}
+		}
 		if strings.HasPrefix(f.Sel.Name, "cap_") {
 			p.methVar = strings.TrimPrefix(f.Sel.Name, "cap_")
 		} else {
@@ -237,10 +265,19 @@ func parsePattern(s string) (*callPattern, error) {
 	}
 	if hasRes {
 		resS = strings.Trim(strings.TrimSpace(resS), "()")
-		for i, r := range strings.Split(resS, ",") {
+		rs := strings.Split(resS, ",")
+		fromEnd := len(rs) > 0 && strings.TrimSpace(rs[0]) == "__" // (__, $err): positions counted from the last result
+		for i, r := range rs {
 			r = strings.TrimSpace(r)
 			if strings.HasPrefix(r, "cap_") {
-				p.caps = append(p.caps, capture{name: strings.TrimPrefix(r, "cap_"), pos: i, isRes: true})
+				c := capture{name: strings.TrimPrefix(r, "cap_"), pos: i, isRes: true}
+				if fromEnd {
+					c.pos = i - len(rs) // negative: -1 is the last result
+				}
+				if r == "cap_err" || fromEnd {
+					c.typ = "error"
+				}
+				p.caps = append(p.caps, c)
 			}
 		}
 	}
@@ -342,17 +379,17 @@ func evalType(pkg *packages.Package, src string) (types.Type, error) {
 	}
 	info := &types.Info{Types: map[ast.Expr]types.TypeAndValue{}}
 	// file scope of the first file: imports are visible there
-	pos := pkg.Syntax[0].End() - 1
+	pos := pkg.Syntax[0].Name.End()
 	for _, f := range pkg.Syntax {
 		if len(f.Imports) > 0 {
-			pos = f.End() - 1
+			pos = f.Name.End()
 		}
 	}
 	if err := types.CheckExpr(pkg.Fset, pkg.Types, pos, ex, info); err != nil {
 		// try every file (imports differ per file)
 		for _, f := range pkg.Syntax {
 			info = &types.Info{Types: map[ast.Expr]types.TypeAndValue{}}
-			if e2 := types.CheckExpr(pkg.Fset, pkg.Types, f.End()-1, ex, info); e2 == nil {
+			if e2 := types.CheckExpr(pkg.Fset, pkg.Types, f.Name.End(), ex, info); e2 == nil {
 				return info.Types[ex].Type, nil
 			}
 		}
@@ -368,7 +405,7 @@ func (lc *lowerCtx) lowerEffects(fc *FuncContract, body *strings.Builder, checkP
 	base := fc.base()
 	for k, ec := range fc.EffectCl {
 		capTypes := map[string]string{}
-		for pi, p := range []*callPattern{ec.Every, ec.Needs} {
+		for pi, p := range append([]*callPattern{ec.Every, ec.Needs}, ec.MoreNeeds...) {
 			if p == nil {
 				continue
 			}
@@ -448,6 +485,26 @@ func (lc *lowerCtx) lowerEffects(fc *FuncContract, body *strings.Builder, checkP
 					return fmt.Errorf("pattern %q: unknown function %s", p.src, p.method)
 				}
 			}
+			if p.recvCap != "" {
+				tt, err := evalTypeIn(lc, p.recvCapType)
+				if err != nil {
+					return fmt.Errorf("pattern %q: receiver type: %v", p.src, err)
+				}
+				it, ok := tt.Underlying().(*types.Interface)
+				if !ok {
+					return fmt.Errorf("pattern %q: receiver capture needs an interface type", p.src)
+				}
+				p.iface = it
+				p.recvCapSuffix = types.TypeString(tt, nil)
+				capTypes["cap_"+p.recvCap] = types.TypeString(tt, lc.g.qualifier)
+				if p.method != "" {
+					for i := 0; i < it.NumMethods(); i++ {
+						if it.Method(i).Name() == p.method {
+							sig = it.Method(i).Type().(*types.Signature)
+						}
+					}
+				}
+			}
 			for ci := range p.caps {
 				c := &p.caps[ci]
 				if c.typ == "" {
@@ -470,10 +527,12 @@ func (lc *lowerCtx) lowerEffects(fc *FuncContract, body *strings.Builder, checkP
 						}
 					}
 					c.typ = types.TypeString(t, lc.g.qualifier)
+					c.canon = canonType(t)
 				} else {
 					// make sure the type's package is imported by the generated file
 					if tt, err := evalTypeIn(lc, c.typ); err == nil {
 						c.typ = types.TypeString(tt, lc.g.qualifier)
+						c.canon = canonType(tt)
 					}
 				}
 				capTypes["cap_"+c.name] = c.typ
@@ -536,7 +595,7 @@ func (lc *lowerCtx) lowerEffects(fc *FuncContract, body *strings.Builder, checkP
 				return true
 			})
 			sort.Strings(names)
-			ps, err := lc.paramList(names, "requires", capTypes)
+			ps, err := lc.paramList(names, "ensures", capTypes) // conditions may name the function's results (err)
 			if err != nil {
 				return err
 			}
@@ -592,6 +651,24 @@ func (e *Engine) matchPattern(sp *ssa.Package, p *callPattern, ev Event, prov fu
 		if p.method != "" && ev.Callee != p.method {
 			return nil, false
 		}
+		if p.recvCap != "" {
+			if ev.RecvT == "" {
+				return nil, false
+			}
+			if p.iface != nil {
+				found := false
+				for i := 0; i < p.iface.NumMethods(); i++ {
+					if p.iface.Method(i).Name() == ev.Callee {
+						found = true
+					}
+				}
+				// the receiver's static type must be that interface (or one that has all its methods)
+				if !found || !strings.HasSuffix(ev.Iface, p.recvCapSuffix) {
+					return nil, false
+				}
+			}
+			mi.caps["cap_"+p.recvCap] = OpaqueV{ev.RecvT}
+		}
 		if p.recvSrc != "_" {
 			rf := sp.Func(p.recvFunc)
 			if rf == nil {
@@ -639,10 +716,19 @@ func (e *Engine) matchPattern(sp *ssa.Package, p *callPattern, ev Event, prov fu
 	}
 	for _, c := range p.caps {
 		if c.isRes {
-			if c.pos >= len(ev.Res) {
+			pos := c.pos
+			if pos < 0 {
+				pos = len(ev.Res) + pos
+			}
+			if pos < 0 || pos >= len(ev.Res) {
 				return nil, false
 			}
-			mi.caps["cap_"+c.name] = ev.Res[c.pos]
+			if c.typ == "error" {
+				if _, isErr := ev.Res[pos].(ErrV); !isErr {
+					return nil, false
+				}
+			}
+			mi.caps["cap_"+c.name] = ev.Res[pos]
 			continue
 		}
 		if c.pos >= len(args) {
@@ -650,8 +736,11 @@ func (e *Engine) matchPattern(sp *ssa.Package, p *callPattern, ev Event, prov fu
 		}
 		if c.pos < len(argTypes) && argTypes[c.pos] != nil && (p.methVar != "" || p.recvSrc == "_") {
 			// typed capture on a method variable: the argument must have exactly that type
-			have := types.TypeString(argTypes[c.pos], func(pk *types.Package) string { return pk.Name() })
-			want := c.typ
+			have := canonType(argTypes[c.pos])
+			want := c.canon
+			if want == "" {
+				want = c.typ
+			}
 			if have != want && !strings.HasSuffix(have, "."+want) && !strings.HasSuffix(want, "."+have) {
 				return nil, false
 			}
@@ -668,7 +757,16 @@ func (e *Engine) effectObligations(sp *ssa.Package, fc *FuncContract, fn *ssa.Fu
 		if fc.RecvName != "" && name == fc.RecvName && len(args) > 0 {
 			return args[0], true
 		}
-		return ep(name)
+		if v, ok := ep(name); ok {
+			return v, true
+		}
+		// the function's own results (merged over its return sites)
+		for i, rn := range resultNames(fn.Signature) {
+			if rn == name && i < len(e.exitVals) {
+				return e.exitVals[i], true
+			}
+		}
+		return nil, false
 	}
 	for _, ec := range fc.EffectCl {
 		wf := sp.Func(ec.whereFn)
@@ -740,24 +838,47 @@ func (e *Engine) effectObligations(sp *ssa.Package, fc *FuncContract, fn *ssa.Fu
 				goal = evalWhere(mi.caps)
 			} else {
 				var dis []string
-				for _, fv := range e.events {
-					if ec.NeedsDir == "before" && fv.Seq >= ev.Seq || ec.NeedsDir == "after" && fv.Seq <= ev.Seq {
-						continue
+				pats := append([]*callPattern{ec.Needs}, ec.MoreNeeds...)
+				dirs := append([]string{ec.NeedsDir}, ec.MoreDirs...)
+				// enumerate tuples of events, one per needs pattern
+				var rec func(k int, caps map[string]Val, guards []string)
+				rec = func(k int, caps map[string]Val, guards []string) {
+					if k == len(pats) {
+						dis = append(dis, and(append(guards, evalWhere(caps))...))
+						return
 					}
-					mf, ok := e.matchPattern(sp, ec.Needs, fv, prov)
-					if !ok {
-						continue
+					for _, fv := range e.events {
+						if dirs[k] == "before" && fv.Seq >= ev.Seq || dirs[k] == "after" && fv.Seq <= ev.Seq {
+							continue
+						}
+						mf, ok := e.matchPattern(sp, pats[k], fv, prov)
+						if !ok {
+							continue
+						}
+						nc := map[string]Val{}
+						for kk, v := range caps {
+							nc[kk] = v
+						}
+						for kk, v := range mf.caps {
+							nc[kk] = v
+						}
+						rec(k+1, nc, append(append([]string{}, guards...), fv.Guard, mf.cond))
 					}
-					caps := map[string]Val{}
-					for k, v := range mi.caps {
-						caps[k] = v
-					}
-					for k, v := range mf.caps {
-						caps[k] = v
-					}
-					dis = append(dis, and(fv.Guard, mf.cond, evalWhere(caps)))
 				}
+				rec(0, mi.caps, nil)
 				goal = or(dis...)
+				// A needed event inside a summarised range loop exists if it exists in SOME iteration. The index of
+				// the summarised iteration is arbitrary; instantiating it to the first iteration (index -1 before the
+				// increment) is a sound witness as long as the obliged event itself does not depend on that index.
+				if !ec.Forbid && len(e.loopIdxSyms) > 0 {
+					xg, xr := e.expandDefs(goal), e.expandDefs(reach)
+					for _, sym := range e.loopIdxSyms {
+						if containsSym(xg, sym) && !containsSym(xr, sym) {
+							xg = replaceSym(xg, sym, "(- 1)")
+							goal = xg
+						}
+					}
+				}
 				if ec.Forbid {
 					goal = not(goal)
 				}
@@ -791,7 +912,21 @@ func (e *Engine) thaw(v Val) Val {
 			elem = sp.ElemT
 		}
 		c.Typ = elem
-		return PtrV{Nil: sp.Nil, Cell: c, Elem: elem, Name: fmt.Sprintf("snap#%d", c.id)}
+		name := fmt.Sprintf("snap#%d", c.id)
+		if _, boxed := e.boxedTerm[sp.Name]; boxed {
+			name = sp.Name // keeps the identity of a pointer that was read from a container
+		}
+		// two snapshots of one and the same pointer compare equal (see binop)
+		if e.snapOrigin == nil {
+			e.snapOrigin = map[*Cell]string{}
+		}
+		// pointer names are identities: parameters by name, allocations by name#id, container reads by their term
+		origin := sp.Name
+		if origin == "" && sp.Cell != nil {
+			origin = fmt.Sprintf("cell/%d", sp.Cell.id)
+		}
+		e.snapOrigin[c] = origin
+		return PtrV{Nil: sp.Nil, Cell: c, Elem: elem, Name: name}
 	}
 	return v
 }
